@@ -1114,6 +1114,58 @@ func keOracle(r *rand.Rand, n int, tier string, infile string) (cases int, fails
 		a.c.VerifOnHandshake()
 		pump(a, b, 3)
 	}
+	// C05: the predicate is asked about whoever completes the channel's OWN handshake, also after an acceptable InitHello
+	// has come in and lost the tie-break against it. X admits key 0 only and has a handshake of its own outstanding; an
+	// InitHello of key 0 arrives and (in about half the cases) loses the tie-break, so X keeps its initiator session; a
+	// party with key 3 then answers X's InitHello, completes the handshake and sends data.
+	tieBreakLoserCase := func() {
+		cases++
+		X := newChan(1, func(k int) bool { return k == 0 })
+		defer X.c.Close()
+		trySend(X, []byte("x"))
+		X.c.VerifOnRekey()
+		X.c.VerifOnHandshake()
+		var ihX []byte
+		for _, m := range X.sent {
+			if p2pke.IsInitHello(m) {
+				ihX = m
+			}
+		}
+		X.sent = nil
+		if ihX == nil {
+			return
+		}
+		A := newChan(0, func(int) bool { return true })
+		trySend(A, []byte("x"))
+		A.c.VerifOnRekey()
+		A.c.VerifOnHandshake()
+		for _, m := range A.sent {
+			if p2pke.IsInitHello(m) {
+				X.c.Deliver(nil, m)
+			}
+		}
+		A.c.Close()
+		won := false
+		for _, m := range X.sent {
+			if p2pke.IsRespHello(m) {
+				won = true
+			}
+		}
+		X.sent = nil
+		if won {
+			return // key 0's InitHello won: X answers it and its own attempt is gone (another history, covered elsewhere)
+		}
+		B := newChan(3, func(int) bool { return true })
+		defer B.c.Close()
+		B.c.Deliver(nil, ihX)
+		pump(B, X, 3)
+		if trySend(B, []byte("from key 3")) == nil {
+			pump(B, X, 1)
+		}
+		if k := keyIndex(X.c.RemoteKey()); k == "3" || len(X.app) > 0 {
+			bad("C05 a channel that admits key 0 only took key %s as its peer and delivered %d messages: an InitHello of key 0 had lost the tie-break against the channel's own handshake, which a party with key 3 then completed", k, len(X.app))
+		}
+	}
 	chanCase := func() {
 		cases++
 		rejectSide := r.Intn(3) // 0: nobody rejects, 1: initiator rejects, 2: responder rejects
@@ -1374,6 +1426,7 @@ func keOracle(r *rand.Rand, n int, tier string, infile string) (cases int, fails
 			concurrentSendCase()
 			concurrentWaitersCase()
 			rekeyHijackCase()
+			tieBreakLoserCase()
 		}
 	}
 	nk := 1
